@@ -71,7 +71,8 @@ TOLERANCES = {
              'change of the reference under a 32-ulp input perturbation)',
     'lipschitz': '||grad f(p)-grad f(q)|| <= L*||p-q||*(1+1e-9) + 256*eps*'
                  '(||grad f(p)||+||grad f(q)||+L*(||p||+||q||))',
-    'numgrad': '|<NumericalGradient(f)(x),d> - D| <= 1e-5*(scale) + 16*err '
+    'numgrad': '|<NumericalGradient(f)(x),d> - D| <= 1e-5*(|g|+||grad||*||d||'
+               '+S/(1+|x|)) + 16*err '
                '(central differences with step 1e-4*(1+|x|))',
 }
 ASSUMPTIONS = [
@@ -299,8 +300,10 @@ def known_region(B):
             return 'C09-K2'
         if 'array' in r.get('huber', ''):
             return 'C09-K3'
-        if r.get('group', '').endswith('-barray'):
-            return 'C09-K3'
+    # (linear f + c) * s: only the scaled node is wrong
+    if B.cls == 'rightscal' and B.children[0].f.is_linear and any(
+            b.region.get('qplin') for b in B.children[0].nodes()):
+        return 'C09-K7'
     return None
 
 
@@ -453,6 +456,9 @@ def _check_node(B, pts, top, fd, ctx, probe=True):
     d = draw_.copy()
     if not np.any(d):
         d = np.ones(n)
+    if float(np.max(np.abs(d))) < 1e-3:
+        # the clause is linear in d: avoid denormal directions
+        d = d / float(np.max(np.abs(d)))
     de, df = X(d)
 
     no_call = any(b.cls == 'moreau' for b in B.nodes())
@@ -468,6 +474,10 @@ def _check_node(B, pts, top, fd, ctx, probe=True):
                 xf.tolist()))
         if ref is not None and not B.children:
             rv = ref.value(xf)
+            big = 1e30 if f32 else 1e300
+            if not np.isfinite(fx) and np.isfinite(rv) and abs(rv) > big:
+                return Outcome('trivial',
+                               strata=strata + ['trivial:overflow'])
             t = 512 * eps * max(n, 1) * (
                 1.0 + abs(rv) + float(np.sum(geo.w * (np.abs(xf) +
                                                       xf * xf))))
@@ -679,7 +689,7 @@ def _check_node(B, pts, top, fd, ctx, probe=True):
             hit('numgrad')
             if len(space.shape) > 1:
                 strata.append('numgrad:ndim>1')
-            t = 1e-5 * (G + abs(best)) + 16 * err + \
+            t = 1e-5 * (G + abs(best) + fscale / xs_) + 16 * err + \
                 64 * eps * abs(value_at(xe)) / step * float(
                     np.sum(geo.w * np.abs(df)))
             if abs(ngv - best) > t:
